@@ -1217,8 +1217,13 @@ func (vfs *MemFS) Truncate(name string, size int64) error {
 	}
 
 	c.mu.Lock()
+	defer c.mu.Unlock()
+
+	if !c.checkPermission(avfs.OpenWrite, vfs.User()) {
+		return &fs.PathError{Op: op, Path: name, Err: vfs.err.PermDenied}
+	}
+
 	c.truncate(size)
-	c.mu.Unlock()
 
 	return nil
 }
